@@ -251,8 +251,9 @@ def func_from_sig(sig):
         The contents of the arguments are eventually passed to `exec`.
         Do not use with untrusted input.
     """
-    ret, sep, sig_str = str(sig).rpartition(' -> ')
-    ret = ret if sep else _util.UNSET
+    sig_str, sep, ret = str(sig).rpartition(' -> ')
+    if not sep:
+        sig_str, ret = ret, _util.UNSET
     return f(sig_str[1:-1], ret)
 
 def make_up_callsigs(sig, extra=2):
